@@ -3,7 +3,8 @@ import os
 import shutil
 
 from vlib import flow, lean, repo
-from vlib.common import fresh_scratch, log, run
+from vlib.common import fresh_scratch, log
+from vlib.common import run as sh
 from checks import filtergen as G
 
 MANIFEST = {
@@ -131,8 +132,8 @@ def query_case(ctx, env, rng):
             ws[rng.randrange(len(ws))] = b"oov%d" % rng.randrange(3)     # not in the model at all: <unk> in both
         sents.append(b" ".join(ws))
     data = b"\n".join(sents) + b"\n"
-    rc1, o1, e1 = run([env["qbin"], opath], timeout=60, input=data)
-    rc2, o2, e2 = run([env["qbin"], fpath], timeout=60, input=data)
+    rc1, o1, e1 = sh([env["qbin"], opath], timeout=60, input=data)
+    rc2, o2, e2 = sh([env["qbin"], fpath], timeout=60, input=data)
     q1, q2 = G.parse_query(o1), G.parse_query(o2)
     ctx.count(("query", arpa, vocab, data), nontrivial=len(grams) >= 2)
     ctx.hist("query_sentences", len(q1))
@@ -147,7 +148,7 @@ def query_case(ctx, env, rng):
 
 def run(ctx):
     problems, consts = flow.proof_phase(ctx, "C11", required=REQUIRED, drivers=["drv_C11"])
-    ok, bdir, lg = repo.build("tools")
+    ok, bdir, lg = repo.build("tools", targets=["filter", "query"])
     if not ok:
         problems.append(lg)
         flow.report_obligation_failures(ctx, problems, False)
@@ -157,7 +158,7 @@ def run(ctx):
     found = False
     nviol = 0
     try:
-        n = 250 if ctx.tier == "quick" else 3000
+        n = 1500 if ctx.tier == "quick" else 12000
         for ci in range(n):
             case = gen_case(ctx.rng, ctx.tier)
             if ci < 3:
@@ -169,7 +170,7 @@ def run(ctx):
                 nviol += 1
                 if nviol >= 5:
                     break
-        nq = 25 if ctx.tier == "quick" else 250
+        nq = 120 if ctx.tier == "quick" else 1500
         for qi in range(nq):
             if nviol >= 5:
                 break
